@@ -127,6 +127,13 @@ def run(ctx):
             for s in singles + (["+".join(singles)] if len(singles) > 1 else []):
                 w2 = prescribe(ctx, [job("x", progs[pid], dev=s.split("+"), what="shadow")], workers=2)[0]["x"]["shadows"]
                 f2 = {w["fn"]: w["fails"] for w in w2}
+                w2 = [w for w in w2 if w["status"] != "skipped"]
+                stop = [j for j, w in enumerate(w2) if w["status"] != "ok"]
+                if stop:      # under this deviation a shadow block ends in a run-time fault: the evaluator stops there, nanoc fails, nothing is written
+                    if w2[stop[0]]["status"].startswith("fault:") and len(tests) == stop[0] + 1 and tests[-1]["verdict"] is None and \
+                            got_counts[:-1] == [(w["fn"], w["fails"]) for w in w2[:stop[0]]] and r["rc"] not in (0, None) and not r["exe"]:
+                        explained = s; break
+                    continue
                 if got_counts == [(w["fn"], w["fails"]) for w in w2 if w["status"] != "skipped"] and (named == {f for f, v in f2.items() if v > 0}) and ((r["rc"] != 0) == any(v > 0 for v in f2.values())) and (r["exe"] == (not any(v > 0 for v in f2.values()))):
                     explained = s; break
             if not explained:     # findings identified by the builtins the program calls (evaluator's static array model)
